@@ -18,11 +18,15 @@ CONSTANTS Sockets,     \* TRUE: socket-pair signalling, FALSE: wait-condition si
           NExtra,      \* Messages the extra sender thread "S" sends (0 = no such thread)
           Rounds,      \* start/shutdown rounds (2 = one restart)
           MaxPolls,    \* bound on the owner's non-blocking polls
-          TimedLoops,  \* subset of BOOLEAN: may the internal thread's loop use waits with a deadline (as testthread.cpp does) / without one (the default loop)
+          TimedLoops,  \* the internal thread's loop, a subset of {"default", "timed", "event"}: the library's default loop (waits without a deadline);
+                       \* waits with a deadline (testthread.cpp); event-driven (testserverthread.cpp): select() on the wake-up socket FIRST, then poll until empty (socket mode only)
           MaxIntr,     \* bound on select() calls interrupted by a signal (EINTR): socket mode only
-          Mutation,    \* "none"; "sig2" = signal when the queue length becomes 2 (a wrong design, used to show NoLostWakeup is not vacuous)
+          Mutation,    \* "none"; "sig2" = signal when the queue length becomes 2 (a wrong design, used to show NoLostWakeup is not vacuous);
+                       \* "readfirst" = StartInternalThread() looks for already-queued Messages BEFORE it allocates the sockets (the code before repair F46):
+                       \* a send by another thread in between is signalled by nobody, and an event-driven internal thread never wakes
           RECORD
 
+ASSUME (~Sockets) => ("event" \notin TimedLoops)
 Dirs == {"int", "own"}            \* "int": owner -> internal thread, "own": internal thread -> owner
 Thr  == {"O", "S", "I"}
 
@@ -37,7 +41,7 @@ VARIABLES q,          \* [Dirs -> Seq(Nat)]  the two _messages queues (0 = the N
           nsent,      \* owner: Messages sent in this round
           xsent,      \* extra sender: Messages sent
           npolls,
-          tloop,      \* the internal thread's loop waits with a deadline
+          tloop,      \* the internal thread's loop: "default" | "timed" | "event"
           nintr,      \* interrupted select() calls so far
           sentH, recvH,   \* histories: enqueue order / dequeue order per direction (ghost)
           handled,    \* sequence of Messages the internal thread's handler saw (ghost)
@@ -46,9 +50,9 @@ VARIABLES q,          \* [Dirs -> Seq(Nat)]  the two _messages queues (0 = the N
 vars == <<q, sig, alloc, eof, running, ended, lt, round, nsent, xsent, npolls, tloop, nintr, sentH, recvH, handled, last>>
 
 L0 == [pc |-> "idle", d |-> "int", m |-> 0, wm |-> "none", inner |-> FALSE, then |-> "idle", res |-> -1]
-\* pc: idle | Enq | Sig | Drain | Deq | Block | WokeWC | Join | StartSig | Entry | Close | off
+\* pc: idle | Enq | Sig | Drain | Deq | Block | EvBlock | Join | StartChk | StartSig | Entry | Close | off
 \* wm: poll | block | timed (a deadline that may pass while the thread is blocked)        inner: the recursive zero-timeout call made after select() returned
-\* then: where the thread continues after the current Send / Wait: "idle" (owner, sender) | "loop" | "reply" (internal)
+\* then: where the thread continues after the current Send / Wait: "idle" (owner, sender) | "loop" (internal thread: back to the top of its loop) | "sleep" (event-driven internal thread: into its select())
 
 Init == /\ q = [d \in Dirs |-> <<>>] /\ sig = [d \in Dirs |-> 0]
         /\ alloc = ~Sockets /\ eof = FALSE /\ running = FALSE /\ ended = FALSE
@@ -64,8 +68,11 @@ CanSignal(d) == IF Sockets THEN alloc /\ (d = "own" => ~eof) ELSE TRUE
 
 \* where a thread goes when its Send is complete: the internal thread's handler returns and the loop waits for the next Message
 WaitStart(d, wm, then) == [L0 EXCEPT !.pc = IF (Sockets /\ alloc) THEN "Drain" ELSE "Deq", !.d = d, !.wm = wm, !.then = then]
-LoopWait == WaitStart("int", IF tloop THEN "timed" ELSE "block", "loop")
-Cont(t) == IF lt[t].then = "loop" THEN LoopWait ELSE [lt[t] EXCEPT !.pc = lt[t].then]
+\* top of the internal thread's loop: a blocking (or timed) WaitForNextMessageFromOwner(), or - event-driven - a non-blocking one; when that finds
+\* nothing the event-driven thread goes to sleep in its own select() on the wake-up socket (EvBlock)
+LoopWait == WaitStart("int", IF tloop = "timed" THEN "timed" ELSE IF tloop = "event" THEN "poll" ELSE "block", "loop")
+EvSleep == [L0 EXCEPT !.pc = "EvBlock", !.d = "int", !.then = "loop"]
+Cont(t) == IF lt[t].then = "loop" THEN LoopWait ELSE IF lt[t].then = "sleep" THEN EvSleep ELSE [lt[t] EXCEPT !.pc = lt[t].then]
 
 \* ---- SendMessageAux ----------------------------------------------------------------------------------
 \* [lock; AddTail; sendNotification := (size = 1); unlock]
@@ -94,7 +101,7 @@ Drain(t) == /\ lt[t].pc = "Drain"
 \* [lock; RemoveHead; unlock]; then return the Message, or B_TIMED_OUT for a poll, or go and block
 Returned(t, m) ==      \* thread-local continuation after Wait returned m (-1 = B_TIMED_OUT)
     IF t = "I"
-    THEN IF m = -1 THEN LoopWait                                                                  \* "recoverable": wait again
+    THEN IF m = -1 THEN (IF tloop = "event" THEN EvSleep ELSE LoopWait)                                                                  \* "recoverable": wait again
          ELSE IF m = 0 THEN [lt[t] EXCEPT !.pc = "Close"]                                                                   \* NULL Message: exit
          ELSE [lt[t] EXCEPT !.pc = "Enq", !.d = "own", !.m = m + 100, !.then = "loop", !.inner = FALSE]                     \* handler: send the reply
     ELSE [lt[t] EXCEPT !.pc = "idle", !.res = m, !.inner = FALSE]
@@ -135,11 +142,16 @@ Interrupt(t) == /\ Sockets /\ lt[t].pc = "Block" /\ nintr < MaxIntr
                 /\ lt' = [lt EXCEPT ![t] = Returned(t, -1)]
                 /\ Log(t, "WakeTimeout", [d |-> lt[t].d])
                 /\ UNCHANGED <<q, sig, alloc, eof, running, ended, round, nsent, xsent, npolls, tloop, sentH, recvH, handled>>
+\* event-driven internal thread: its own select() on the wake-up socket returns (a byte is readable); it then polls until the queue is empty
+EvWake(t) == /\ lt[t].pc = "EvBlock" /\ sig[lt[t].d] > 0
+             /\ lt' = [lt EXCEPT ![t] = LoopWait]
+             /\ Log(t, "Wake", [d |-> lt[t].d])
+             /\ UNCHANGED <<q, sig, alloc, eof, running, ended, round, nsent, xsent, npolls, tloop, nintr, sentH, recvH, handled>>
 \* ---- the internal thread's life ------------------------------------------------------------------------
 \* InternalThreadEntryAux: [lock owner queue; if it already holds replies: SignalOwner(); unlock]
 \* (the signal is a separate action here although the code sends it with the lock still held: a harmless over-approximation)
 Entry == /\ lt["I"].pc = "Entry"
-         /\ lt' = [lt EXCEPT !["I"] = IF q["own"] # <<>> THEN [L0 EXCEPT !.pc = "Sig", !.d = "own", !.then = "loop"] ELSE LoopWait]
+         /\ lt' = [lt EXCEPT !["I"] = IF q["own"] # <<>> THEN [L0 EXCEPT !.pc = "Sig", !.d = "own", !.then = IF tloop = "event" THEN "sleep" ELSE "loop"] ELSE (IF tloop = "event" THEN EvSleep ELSE LoopWait)]
          /\ Log("I", "Entry", [has |-> (q["own"] # <<>>)])
          /\ UNCHANGED <<q, sig, alloc, eof, running, ended, round, nsent, xsent, npolls, tloop, nintr, sentH, recvH, handled>>
 \* ... _messageSocket.Reset() (the owner sees EOF), then the thread ends
@@ -175,18 +187,29 @@ OWaitTimed == /\ lt["O"].pc = "idle" /\ running /\ npolls < MaxPolls
               /\ npolls' = npolls + 1
               /\ Log("O", "OWaitTimed", [x |-> 0])
               /\ UNCHANGED <<q, sig, alloc, eof, running, ended, round, nsent, xsent, tloop, nintr, sentH, recvH, handled>>
-\* StartInternalThread(): needsInitialSignal := queue non-empty (read without the lock) ...
-OStart == /\ lt["O"].pc = "idle" /\ ~running /\ round < Rounds
-          /\ lt' = [lt EXCEPT !["O"] = [L0 EXCEPT !.pc = "Start2", !.m = IF q["int"] # <<>> THEN 1 ELSE 0]]
-          /\ Log("O", "OStart", [initial |-> (q["int"] # <<>>)])
-          /\ UNCHANGED <<q, sig, alloc, eof, running, ended, round, nsent, xsent, npolls, tloop, nintr, sentH, recvH, handled>>
-\* ... then (other threads may have run meanwhile) allocate the sockets, mark the thread running, spawn it ...
-OStart2 == /\ lt["O"].pc = "Start2"
-           /\ running' = TRUE /\ alloc' = TRUE /\ ended' = FALSE /\ round' = round + 1
-           /\ nsent' = IF round = 0 THEN nsent ELSE 0
-           /\ lt' = [lt EXCEPT !["O"] = [L0 EXCEPT !.pc = IF lt["O"].m = 1 THEN "StartSig" ELSE "idle"], !["I"] = [L0 EXCEPT !.pc = "Entry"]]
-           /\ Log("O", "OStart2", [x |-> 0])
-           /\ UNCHANGED <<q, sig, eof, xsent, npolls, tloop, nintr, sentH, recvH, handled>>
+\* StartInternalThread() (as repaired, F46): allocate the sockets, mark the thread running, spawn it ...
+OStart == /\ lt["O"].pc = "idle" /\ ~running /\ round < Rounds /\ Mutation # "readfirst"
+          /\ running' = TRUE /\ alloc' = TRUE /\ ended' = FALSE /\ round' = round + 1
+          /\ nsent' = IF round = 0 THEN nsent ELSE 0
+          /\ lt' = [lt EXCEPT !["O"] = [L0 EXCEPT !.pc = "StartChk"], !["I"] = [L0 EXCEPT !.pc = "Entry"]]
+          /\ Log("O", "OStart", [x |-> 0])
+          /\ UNCHANGED <<q, sig, eof, xsent, npolls, tloop, nintr, sentH, recvH, handled>>
+\* ... then [lock the queue; needsInitialSignal := queue non-empty; unlock] (whatever was queued before the sockets existed could not be signalled by its sender) ...
+OStartChk == /\ lt["O"].pc = "StartChk"
+             /\ lt' = [lt EXCEPT !["O"].pc = IF q["int"] # <<>> THEN "StartSig" ELSE "idle"]
+             /\ Log("O", "OStartChk", [initial |-> (q["int"] # <<>>)])
+             /\ UNCHANGED <<q, sig, alloc, eof, running, ended, round, nsent, xsent, npolls, tloop, nintr, sentH, recvH, handled>>
+\* the order before the repair (Mutation = "readfirst"): read first (without the lock), then allocate / spawn
+OStartOld == /\ lt["O"].pc = "idle" /\ ~running /\ round < Rounds /\ Mutation = "readfirst"
+             /\ lt' = [lt EXCEPT !["O"] = [L0 EXCEPT !.pc = "Start2", !.m = IF q["int"] # <<>> THEN 1 ELSE 0]]
+             /\ Log("O", "OStartOld", [initial |-> (q["int"] # <<>>)])
+             /\ UNCHANGED <<q, sig, alloc, eof, running, ended, round, nsent, xsent, npolls, tloop, nintr, sentH, recvH, handled>>
+OStart2Old == /\ lt["O"].pc = "Start2"
+              /\ running' = TRUE /\ alloc' = TRUE /\ ended' = FALSE /\ round' = round + 1
+              /\ nsent' = IF round = 0 THEN nsent ELSE 0
+              /\ lt' = [lt EXCEPT !["O"] = [L0 EXCEPT !.pc = IF lt["O"].m = 1 THEN "StartSig" ELSE "idle"], !["I"] = [L0 EXCEPT !.pc = "Entry"]]
+              /\ Log("O", "OStart2Old", [x |-> 0])
+              /\ UNCHANGED <<q, sig, eof, xsent, npolls, tloop, nintr, sentH, recvH, handled>>
 \* ... and signal it if Messages were already queued
 OStartSig == /\ lt["O"].pc = "StartSig"
              /\ sig' = IF CanSignal("int") THEN [sig EXCEPT !["int"] = @ + 1] ELSE sig
@@ -223,14 +246,14 @@ SSend == /\ NExtra > 0 /\ lt["S"].pc = "idle" /\ xsent < NExtra /\ ~ShutSent
          /\ Log("S", "SSend", [m |-> 50 + xsent + 1])
          /\ UNCHANGED <<q, sig, alloc, eof, running, ended, round, nsent, npolls, tloop, nintr, sentH, recvH, handled>>
 
-TNext(t) == \/ Enq(t) \/ Sig(t) \/ Drain(t) \/ Deq(t) \/ WakeSock(t) \/ WakeWC(t) \/ WakeTimeout(t) \/ Interrupt(t)
+TNext(t) == \/ Enq(t) \/ Sig(t) \/ Drain(t) \/ Deq(t) \/ WakeSock(t) \/ WakeWC(t) \/ EvWake(t) \/ WakeTimeout(t) \/ Interrupt(t)
             \/ (t = "I" /\ (Entry \/ Close))
-            \/ (t = "O" /\ (OSend \/ OPoll \/ OWait \/ OWaitTimed \/ OStart \/ OStart2 \/ OStartSig \/ OShutdown \/ OShutdownNoWait \/ OWaitExit \/ OJoin))
+            \/ (t = "O" /\ (OSend \/ OPoll \/ OWait \/ OWaitTimed \/ OStart \/ OStartChk \/ OStartOld \/ OStart2Old \/ OStartSig \/ OShutdown \/ OShutdownNoWait \/ OWaitExit \/ OJoin))
             \/ (t = "S" /\ SSend)
 Next == \E t \in Thr : TNext(t)
 Spec == Init /\ [][Next]_vars
 \* fairness: the library's own steps are taken (a deadline passing or a signal arriving is never forced); the owner's *choices* (send, poll, start, shutdown) are not forced
-LibNext(t) == Enq(t) \/ Sig(t) \/ Drain(t) \/ Deq(t) \/ WakeSock(t) \/ WakeWC(t) \/ (t = "I" /\ (Entry \/ Close)) \/ (t = "O" /\ (OStart2 \/ OStartSig \/ OJoin))
+LibNext(t) == Enq(t) \/ Sig(t) \/ Drain(t) \/ Deq(t) \/ WakeSock(t) \/ WakeWC(t) \/ EvWake(t) \/ (t = "I" /\ (Entry \/ Close)) \/ (t = "O" /\ (OStartChk \/ OStart2Old \/ OStartSig \/ OJoin))
 FairSpec == Spec /\ \A t \in Thr : WF_vars(LibNext(t))
 \* ... and for termination the owner is assumed to go on as long as it can
 FairSpecAll == Spec /\ \A t \in Thr : WF_vars(TNext(t))
@@ -249,7 +272,7 @@ PerSenderOrder == LET own == SelectSeq(handled, LAMBDA x : x < 50 \/ x > 60)   x
 RepliesInOrder == sentH["own"] = [i \in 1..Len(sentH["own"]) |-> handled[i] + 100]
 
 \* no lost wake-up: a receiver blocked while a Message is queued for it always wakes
-NoLostWakeup == \A t \in {"O", "I"} : (lt[t].pc = "Block" /\ q[lt[t].d] # <<>>) ~> (lt[t].pc # "Block")
+NoLostWakeup == \A t \in {"O", "I"} : (lt[t].pc \in {"Block", "EvBlock"} /\ q[lt[t].d] # <<>>) ~> (lt[t].pc \notin {"Block", "EvBlock"})
 \* asking the thread to shut down and waiting for it always completes
 ShutdownCompletes == (lt["O"].pc = "Join") ~> (lt["O"].pc # "Join")
 \* Messages queued for the internal thread while it runs (or before it is started) are handled
